@@ -27,6 +27,12 @@ const UAmount = 150000000
 
 // NewPrelude builds and processes `length` blocks (E must be 2, length even and >= 16).
 func NewPrelude(net *labnet.Net, length int) (*Prelude, error) {
+	return NewPreludeProg(net, length, nil)
+}
+
+// NewPreludeProg is NewPrelude with a chosen coinbase program per height (nil result = OP_TRUE).
+// Heights 1..6 must keep OP_TRUE (their rewards fund the U outputs).
+func NewPreludeProg(net *labnet.Net, length int, progAt func(h int) []byte) (*Prelude, error) {
 	if net.E != 2 || length < 16 || length%2 != 0 {
 		return nil, fmt.Errorf("prelude needs E=2 and an even length >= 16")
 	}
@@ -48,10 +54,20 @@ func NewPrelude(net *labnet.Net, length int) (*Prelude, error) {
 		if h == length {
 			txs = append(txs, split(p.Reward[5], 3))
 		}
-		b := net.NewBlock(parent, labnet.BlockOpt{Txs: txs})
+		var cprog []byte
+		if progAt != nil {
+			cprog = progAt(h)
+		}
+		b := net.NewBlock(parent, labnet.BlockOpt{Txs: txs, CoinbaseProg: cprog})
 		p.Blocks = append(p.Blocks, b)
 		if h%2 == 1 && h >= 3 {
-			p.Reward[uint64(h)] = labnet.Out{Tx: b.Block.Transactions[0], Idx: 0}
+			idx := 0
+			for i, o := range b.Block.Transactions[0].Outputs {
+				if o.Amount > b.Block.Transactions[0].Outputs[idx].Amount {
+					idx = i
+				}
+			}
+			p.Reward[uint64(h)] = labnet.Out{Tx: b.Block.Transactions[0], Idx: idx}
 		}
 		for _, t := range txs {
 			for i := 0; i < 3; i++ {
